@@ -397,11 +397,70 @@ fn family_chunk(idx: u64, out: &mut CaseOut, st: &mut Stats) {
     }
 }
 
+/// a shuttle tour of 40-110 activities and trips at remote stations: along the tour the nodes
+/// that can reach the inserted trip do not form a prefix, and long blocks cannot reach it
+fn shuttle_case(rng: &mut Rng, tag: &str, out: &mut CaseOut, st: &mut Stats) {
+    let (input, ids) = gen::shuttle_network(rng, tag);
+    let b = Bridge::new(&input).expect("bridge");
+    let inst = &b.inst;
+    out.count("shuttle_networks", 1);
+    let chain: Vec<N> = ids.iter().map(|id| N::T(inst.trips.iter().position(|t| &t.id == id).expect("shuttle trip"))).collect();
+    let nd = inst.depots.len();
+    let mut nodes = vec![N::SD(rng.usize(0, nd - 1))];
+    nodes.extend(chain.iter().copied());
+    nodes.push(N::ED(rng.usize(0, nd - 1)));
+    let empty = Schedule::empty(b.net.clone());
+    let (s, id) = match guard(|| empty.spawn_vehicle_for_path(vt(0), b.nodes(&nodes))) {
+        Ok(Ok(x)) => x,
+        _ => {
+            out.count("shuttle_networks_tour_not_built", 1);
+            return;
+        }
+    };
+    let in_chain: std::collections::BTreeSet<N> = chain.iter().copied().collect();
+    let others: Vec<N> = (0..inst.trips.len()).map(N::T).filter(|n| !in_chain.contains(n)).collect();
+    let mut paths: Vec<Vec<N>> = others.iter().map(|&n| vec![n]).collect();
+    for _ in 0..10 {
+        let p = random_path(rng, inst, 0, 3);
+        if !p.is_empty() {
+            paths.push(p);
+        }
+    }
+    // how non-monotone is it? count (path, tour) pairs where a non-reaching node precedes a reaching one
+    let mut non_prefix = 0u64;
+    let mut long_blocks = 0u64;
+    for p in &paths {
+        let first = p[0];
+        let reach: Vec<bool> = chain.iter().map(|&n| inst.connectable(n, first)).collect();
+        let last_true = reach.iter().rposition(|&r| r);
+        if let Some(lt) = last_true {
+            if reach[..lt].iter().any(|&r| !r) {
+                non_prefix += 1;
+            }
+            let before: Vec<&N> = chain.iter().filter(|&&n| inst.end(n) <= inst.start(first)).collect();
+            if before.len() >= lt + 1 + 16 {
+                long_blocks += 1;
+            }
+        }
+    }
+    out.count("shuttle.paths_where_reaching_nodes_are_not_a_prefix", non_prefix);
+    out.count("shuttle.paths_behind_16_or_more_non_reaching_nodes", long_blocks);
+    let key = tag.to_string();
+    let desc = || json!({"input": input.clone()});
+    judge_tour(&b, s.tour_of(id).unwrap(), &paths, out, st, &desc, &key);
+    if let Ok(Ok(s2)) = guard(|| s.replace_vehicle_by_dummy(id)) {
+        if let Some(d) = s2.dummy_iter().next() {
+            judge_tour(&b, s2.tour_of(d).unwrap(), &paths, out, st, &desc, &key);
+        }
+    }
+}
+
 fn random_case(ctx: &Ctx, idx: u64, out: &mut CaseOut, st: &mut Stats) {
     let mut rng = Rng::new(mix(&[ctx.seed, hash_str("tour"), idx]));
     let profile = *rng.pick(&[Profile::Ties, Profile::Ties, Profile::NonMetric, Profile::Mixed, Profile::Forbid, Profile::Maint]);
     let mut opts = GenOpts::new(profile, if ctx.thorough() { 8 } else { 5 });
     opts.force_slots = rng.chance(1, 2);
+    opts.force_turnaround = rng.chance(1, 4);
     let tag = format!("t{}c{}", ctx.seed, idx);
     let mut input = gen::generate(&mut rng, &opts, &tag);
     // a third of the networks gets connections that are much slower than a detour (dead-heads
@@ -421,15 +480,71 @@ fn random_case(ctx: &Ctx, idx: u64, out: &mut CaseOut, st: &mut Stats) {
         input = gen::gap_network(&mut rng, &tag);
         out.count("gap_networks", 1);
     }
+    if rng.chance(1, 5) {
+        input = gen::turnaround_network(&mut rng, &tag);
+        out.count("turnaround_networks", 1);
+    }
+    let busy_line = rng.chance(1, 4);
+    if busy_line {
+        let ndep = rng.usize(30, 90);
+        let (ws, ld) = (rng.chance(1, 2), false);
+        input = gen::line_network(&mut rng, &tag, ndep, ws, ld);
+        out.count("busy_line_networks", 1);
+    }
+    if rng.chance(1, 6) {
+        shuttle_case(&mut rng, &tag, out, st);
+        return;
+    }
     let b = Bridge::new(&input).expect("bridge");
     out.count("random_networks", 1);
     out.count(&format!("profile.{}", profile.name()), 1);
     let inst = &b.inst;
     let nd = inst.depots.len();
     let empty = Schedule::empty(b.net.clone());
+    let mk_paths = |rng: &mut Rng, t: usize| -> Vec<Vec<N>> {
+        let mut paths: Vec<Vec<N>> = Vec::new();
+        for _ in 0..10 {
+            let mut p = random_path(rng, inst, t, 4);
+            if p.is_empty() {
+                continue;
+            }
+            match rng.below(5) {
+                0 => p.insert(0, N::SD(rng.usize(0, nd - 1))),
+                1 => p.push(N::ED(rng.usize(0, nd - 1))),
+                2 => {
+                    p.insert(0, N::SD(rng.usize(0, nd - 1)));
+                    p.push(N::ED(rng.usize(0, nd - 1)));
+                }
+                _ => {}
+            }
+            paths.push(p);
+        }
+        paths
+    };
+    if busy_line {
+        // the long tours of the real start solution (dozens of activities each)
+        if let Ok(start) = guard(|| solver::min_cost_flow_solver::MinCostFlowSolver::initialize(b.net.clone()).solve()) {
+            let mut vs: Vec<_> = start.vehicles_iter_all().collect();
+            rng.shuffle(&mut vs);
+            let mut longest = 0usize;
+            for v in vs.into_iter().take(10) {
+                let tour = start.tour_of(v).unwrap();
+                longest = longest.max(tour.all_nodes_iter().count());
+                let t = start.vehicle_type_of(v).ok().and_then(|x| (0..inst.types.len()).find(|&k| vt(k) == x)).unwrap_or(0);
+                let paths = mk_paths(&mut rng, t);
+                let key = tag.clone();
+                let desc = || json!({"input": input.clone()});
+                judge_tour(&b, tour, &paths, out, st, &desc, &key);
+            }
+            out.count("busy_line.longest_tour_nodes_sum", longest as u64);
+            if longest >= 20 {
+                out.count("busy_line.networks_with_a_tour_of_20_or_more_nodes", 1);
+            }
+        }
+    }
     for _ in 0..12 {
         let t = rng.usize(0, inst.types.len() - 1);
-        let chain = random_path(&mut rng, inst, t, 7);
+        let chain = random_path(&mut rng, inst, t, if busy_line { 70 } else { 7 });
         if chain.is_empty() {
             continue;
         }
